@@ -433,7 +433,8 @@ def run(ctx):
 		"FAKE_TOA/FAKE_CI thresholds >= 0 (hostile forms belong to C14)")
 	r = ctx.rng("c05")
 	for i in range(ctx.scale(1500, 100000)):
-		sequence(ctx, ctx.case_rng("sequence", i), i)
+		with common.case_watchdog(ctx, "sequence", {"case": i}, first = 60, second = 60):
+			sequence(ctx, ctx.case_rng("sequence", i), i)
 		ctx.count("sequences")
 		if ctx.too_many() or ctx.time_left() < 0:
 			break
